@@ -120,6 +120,45 @@ Theorem C05_call_opcodes_are_the_tables :
 Proof. exact call_analyze_tables. Qed.
 Print Assumptions C05_call_opcodes_are_the_tables.
 
+(* software interrupt: IR pushes the address of the next instruction (3 bytes), C | Z<<1 (1 byte) and IMR (1 byte) below
+   the old S, clears only bit 7 of IMR, jumps through the vector at 0xFFFFA and touches nothing else - flags included *)
+Theorem C05_ir_frame : forall s addr,
+  wf_state s -> 5 <= getr s gS -> getr s gS <= 1048570 -> 0 <= addr -> addr + 1 < 1048576 ->
+  mem s 1048570 + 256 * (mem s 1048571 + 256 * mem s 1048572) < 1048576 ->
+  exists s', exec_decoded (mk_instr 254 [] 1) 254 addr s = XOk s' /\ wf_state s' /\
+    getr s' gPC = mem s 1048570 + 256 * (mem s 1048571 + 256 * mem s 1048572) /\
+    getr s' gS = getr s gS - 5 /\
+    mem s' (getr s gS - 3) = (addr + 1) mod 256 /\ mem s' (getr s gS - 2) = ((addr + 1) / 256) mod 256 /\
+    mem s' (getr s gS - 1) = ((addr + 1) / 65536) mod 256 /\
+    mem s' (getr s gS - 4) = get_flag s true + 2 * get_flag s false /\
+    mem s' (getr s gS - 5) = mem s imr_cell /\ mem s' imr_cell = Z.land (mem s imr_cell) 127 /\
+    (forall a, ~ (getr s gS - 5 <= a < getr s gS) -> a <> imr_cell -> mem s' a = mem s a) /\
+    (forall r, r <> gS -> r <> gPC -> getr s' r = getr s r).
+Proof. exact ir_exec. Qed.
+Print Assumptions C05_ir_frame.
+
+(* IR ... RETI: from any later well-formed state with S back at the frame and the five frame bytes intact, RETI - executed
+   anywhere - resumes after the IR with the caller's S, carry, zero and interrupt mask; memory other than the IMR cell and
+   every architectural register other than S, PC and the flags are left as the handler left them *)
+Theorem C05_ir_reti_inverse : forall s addr s1,
+  wf_state s -> 5 <= getr s gS -> getr s gS <= 1048570 -> 0 <= addr -> addr + 1 < 1048576 ->
+  mem s 1048570 + 256 * (mem s 1048571 + 256 * mem s 1048572) < 1048576 ->
+  exec_decoded (mk_instr 254 [] 1) 254 addr s = XOk s1 ->
+  forall t raddr, wf_state t -> getr t gS = getr s1 gS ->
+    (forall a, getr s gS - 5 <= a < getr s gS -> mem t a = mem s1 a) ->
+    0 <= raddr -> raddr + 1 < 1048576 ->
+    exists t', exec_decoded (mk_instr 1 [] 1) 1 raddr t = XOk t' /\
+      getr t' gPC = addr + 1 /\ getr t' gS = getr s gS /\
+      get_flag t' true = get_flag s true /\ get_flag t' false = get_flag s false /\
+      mem t' imr_cell = mem s imr_cell /\ (forall a, a <> imr_cell -> mem t' a = mem t a) /\
+      (forall r, r <> gS -> r <> gPC -> is_temp r = false -> is_flagreg r = false -> getr t' r = getr t r).
+Proof. exact ir_reti_inverse. Qed.
+Print Assumptions C05_ir_reti_inverse.
+
+Theorem C05_ir_opcodes_are_the_tables : d_cls (entry_of 254) = I_IR /\ d_cls (entry_of 1) = I_RETI.
+Proof. exact ir_table. Qed.
+Print Assumptions C05_ir_opcodes_are_the_tables.
+
 (* non-vacuity of the call theorems: a concrete state meets the hypotheses (S = 0x1000, byte memory) *)
 Example C05_call_hypotheses_satisfiable : wf_state edge_state /\ 3 <= getr edge_state gS.
 Proof.
